@@ -76,6 +76,7 @@ func (e *DefaultExecutor) Execute(ctx context.Context, job *Job) ([]byte, error)
 
 	env := e.env
 	env = append(env, utils.ConvertEnv(utils.ConvertToMapOfStrings(job.Env.Map()))...)
+	env = overrideEnv(env)
 
 	if job.Dir == "" {
 		job.Dir = e.dir
@@ -103,6 +104,28 @@ func (e *DefaultExecutor) Execute(ctx context.Context, job *Job) ([]byte, error)
 	}
 
 	return e.buf.Bytes()[offset:], nil
+}
+
+// overrideEnv collapses entries with the same name, the later entry wins.
+// expand.ListEnviron sorts the list and would otherwise keep whichever "name=value" sorts last,
+// so an inherited value could shadow the one set for the job.
+func overrideEnv(env []string) []string {
+	res := make([]string, 0, len(env))
+	index := make(map[string]int, len(env))
+	for _, kv := range env {
+		name := kv
+		if i := strings.Index(kv, "="); i >= 0 {
+			name = kv[:i]
+		}
+		if i, ok := index[name]; ok {
+			res[i] = kv
+			continue
+		}
+		index[name] = len(res)
+		res = append(res, kv)
+	}
+
+	return res
 }
 
 // IsExitStatus checks if given `err` is an exit status
